@@ -765,6 +765,24 @@ def _judge_story(pre, post, m, raised, mos_warns, D, v):
         v.in_claim = False
         v.status = 'ooc'
         v.sig = ('ooc-dup-stories', kind)
+        # repeated or missing story IDs leave the order claim undefined - but a message none of whose
+        # references names an existing story (blank, absent, unknown) still may not touch any story
+        refs = list(m.sources) + ([m.target] if op not in ('append', 'delete') else [])
+        if op == 'send':
+            refs = [m.story_ref]
+        nothing_resolves = bool(refs) and not any(r[0] == 'id' and r[1] in known for r in refs)
+        if nothing_resolves and not raised:
+            same = (post.story_canons == pre.story_canons) if op in ('delete', 'move', 'swap', 'replace', 'send') \
+                else _is_subseq(pre.story_canons, post.story_canons)
+            v.sig = ('ooc-dup-stories', kind, 'nothing-resolves')
+            if not same:
+                D.append(Dev('C03', 'unresolvable-reference-changed-other-stories',
+                             {'kind': kind, 'pre': L, 'post': post_ids, 'target': m.target, 'sources': m.sources,
+                              'why': 'no reference names an existing story (the running order has repeated / missing story IDs)'}))
+            if op == 'delete' and Counter(mos_warns).get(SNF, 0) != len(m.sources):
+                D.append(Dev('C06', 'unreported-element',
+                             {'kind': kind, 'expected': {SNF: len(m.sources)}, 'observed': dict(Counter(mos_warns)),
+                              'why': 'delete names only unresolvable IDs (running order with repeated / missing story IDs)'}))
         return
     carried_ids = [sid(c) for c in m.carried]
     if op == 'send':
@@ -887,6 +905,24 @@ def _judge_item(pre, post, m, raised, mos_warns, D, v):
         v.in_claim = False
         v.status = 'ooc'
         v.sig = ('ooc-dup-items', kind)
+        # as for stories: references that name no existing item may not touch any item
+        have = {i for i in L if i is not None}
+        refs = list(m.sources) + ([m.target] if op in ('replace', 'move', 'insert') else [])
+        nothing_resolves = bool(refs) and not any(r[0] == 'id' and r[1] in have for r in refs)
+        if nothing_resolves and not raised:
+            pc = [canon(i) for i in items_of(ps)]
+            qc = [canon(i) for i in items_of(qs)]
+            same = (pc == qc) if op in ('delete', 'move', 'swap', 'replace') else _is_subseq(pc, qc)
+            v.sig = ('ooc-dup-items', kind, 'nothing-resolves')
+            if not same:
+                D.append(Dev('C03', 'unresolvable-reference-changed-other-items',
+                             {'kind': kind, 'story': addressed, 'pre': L, 'post': post_ids, 'target': m.target,
+                              'sources': m.sources,
+                              'why': 'no reference names an existing item (the story has repeated / missing item IDs)'}))
+            if op == 'delete' and Counter(mos_warns).get(INF, 0) != len(m.sources):
+                D.append(Dev('C06', 'unreported-element',
+                             {'kind': kind, 'expected': {INF: len(m.sources)}, 'observed': dict(Counter(mos_warns)),
+                              'why': 'delete names only unresolvable IDs (story with repeated / missing item IDs)'}))
         return
     known = set(L)
     shapes = (sshape, ref_shape(m.target, known)) + tuple(sorted({ref_shape(r, known) for r in m.sources}))
